@@ -29,7 +29,7 @@ def main():
         if os.path.exists(os.path.join(d, "result.json")):
             res = json.load(open(os.path.join(d, "result.json")))
         meta_path = os.path.join(d, "meta.json")
-        if name.startswith("refactor-"):
+        if name.startswith(("refactor-", "refactor2-")):
             notes = open(os.path.join(d, "notes.md")).read() if os.path.exists(os.path.join(d, "notes.md")) else ""
             meta = {
                 "id": name, "breaks": "nothing (behaviour-preserving)",
@@ -74,8 +74,8 @@ def main():
             meta["violation_tags"] = {c: r["tags"] for c, r in res.get("checks", {}).items() if r["exit"] == 1}
         json.dump(meta, open(meta_path, "w"), indent=1)
         rows.append((name, meta.get("breaks", "?"), meta.get("what", ""), res))
-    refactors = [r for r in rows if r[0].startswith("refactor-")]
-    rows = [r for r in rows if not r[0].startswith("refactor-")]
+    refactors = [r for r in rows if r[0].startswith("refactor")]
+    rows = [r for r in rows if not r[0].startswith("refactor")]
     out = []
     _print = out.append
     _print("| seeded change | targets | what | suite passes | killed by (quick tier) |")
